@@ -668,6 +668,24 @@ func (comp) Run(h *core.History, scratch string) *core.Result {
 			}
 		}
 	}
+	// use after Close (time cacher only; Close stops the sweeping goroutine, twice is harmless): a key whose span has more than an hour
+	// to run is still there right after it
+	if kind == kindCacher && f.get != nil {
+		var longLived []string
+		for k, l := range lives {
+			if f.has([]byte(k)) && expiresAt(l.t, l.d)-prev > int64(time.Hour) {
+				longLived = append(longLived, k)
+			}
+		}
+		f.close()
+		f.close()
+		for _, k := range longLived {
+			if _, ok := f.get([]byte(k)); !ok || !f.has([]byte(k)) {
+				res.Failf("C18", -1, "key %q, whose span has more than an hour to run, is gone right after Close() (Has=%v, Len=%d)", k, f.has([]byte(k)), f.length())
+				break
+			}
+		}
+	}
 	return res
 }
 
